@@ -23,10 +23,26 @@ FIXED = ["", "/", ":", "//", "CVSS:3.0/", "CVSS:3.1/", "CVSS:4.0/", "CVSS:3.0", 
          "AV:N/AC:L/Au:N/C:P/I:P/A:P/AV:N", "AV:N/AC:L/Au:N/C:P/I:P/A:P/AV:L", "None", "CVSS:3.1/None:None"]
 
 
+def small_strings():
+    """bounded-exhaustive part of the tie: EVERY string of length <= 4 over a small alphabet of structural
+    characters and token letters, and every way of gluing <= 3 pieces from a piece vocabulary"""
+    import itertools
+    out = []
+    alpha = "AV:/N "
+    for n in range(0, 5):
+        for tup in itertools.product(alpha, repeat=n):
+            out.append("".join(tup))
+    pieces = ["AV:N", "AC:L", "Au:N", "C:P", "/", ":", "CVSS:3.1/", "CVSS:4.0/", "E:X", "E:ND", "AV", "N", " ", "//", "S:U", "U:Red"]
+    for n in range(1, 4):
+        for tup in itertools.product(pieces, repeat=n):
+            out.append("".join(tup))
+    return out
+
+
 def run(ctx):
     rng = ctx.rng
     items = []
-    for s in FIXED:
+    for s in FIXED + small_strings():
         for v in "234":
             items.append((v, s))
     for _ in range(ctx.n(12000, 250000)):
